@@ -33,9 +33,22 @@ pub fn validate(case: &MuxCase, model: &[Vec<MSample>], bytes: &[u8]) -> Result<
     }
     let mdat = mdats[0];
     let (md_lo, md_hi) = ((mdat.start + mdat.header) as u64, mdat.end() as u64);
-    let ftyp = dec_ftyp(top[0].payload(bytes)).map_err(|e| Failure::new("c02:ftyp", e))?;
-    ensure!(ftyp.major == case.major && ftyp.minor == case.minor && ftyp.compat == case.compat, "c02:ftyp-fields", "ftyp fields differ from the configuration");
     let moov = moovs[0];
+    validate_parts(case, model, top[0].payload(bytes), &bytes[moov.start..moov.end()], md_lo, md_hi)
+}
+
+/// Checks below the top level: `moov_bytes` is the complete moov box, `md_lo..md_hi` the absolute
+/// byte range of the mdat payload (chunk offsets are absolute stream positions).
+pub fn validate_parts(case: &MuxCase, model: &[Vec<MSample>], ftyp_payload: &[u8], moov_bytes: &[u8], md_lo: u64, md_hi: u64) -> Result<Vec<TrackFacts>, Failure> {
+    let bytes = moov_bytes;
+    let mtop = match walk(moov_bytes) {
+        Ok(t) => t,
+        Err(e) => fail!("c02:tiling", "independent parser rejects the moov box: {}", e),
+    };
+    ensure!(mtop.len() == 1 && mtop[0].typ == cc("moov"), "c02:one-moov", "moov bytes do not hold exactly one moov box");
+    let moov = &mtop[0];
+    let ftyp = dec_ftyp(ftyp_payload).map_err(|e| Failure::new("c02:ftyp", e))?;
+    ensure!(ftyp.major == case.major && ftyp.minor == case.minor && ftyp.compat == case.compat, "c02:ftyp-fields", "ftyp fields differ from the configuration");
     let mvhd_b = moov.child("mvhd").ok_or_else(|| Failure::new("c02:no-mvhd", "moov without mvhd"))?;
     ensure!(moov.children[0].typ == cc("mvhd"), "c02:mvhd-first", "mvhd is not the first child of moov");
     let mvhd = dec_mvhd(mvhd_b.payload(bytes)).map_err(|e| Failure::new("c02:mvhd", e))?;
@@ -76,6 +89,10 @@ pub fn validate(case: &MuxCase, model: &[Vec<MSample>], bytes: &[u8]) -> Result<
         let diff = if got > num { got - num } else { num - got };
         ensure!(diff <= track_ts as u128, "c02:tkhd-duration", "track {}: tkhd duration {} but {} media ticks at {}/{} = {:.3} movie ticks", ti + 1, tkhd.duration, sum_dur, case.timescale, track_ts, num as f64 / track_ts as f64);
         max_tkhd = max_tkhd.max(tkhd.duration);
+        // a value that does not fit 32 bits must use the version-1 form (a version-0 box would
+        // have truncated it, which the exact comparisons above already reject)
+        ensure!(sum_dur <= u32::MAX as u64 || mdhd.version == 1, "c02:mdhd-version", "track {}: mdhd duration {} needs version 1", ti + 1, sum_dur);
+        ensure!(tkhd.duration <= u32::MAX as u64 || tkhd.version == 1, "c02:tkhd-version", "track {}: tkhd duration {} needs version 1", ti + 1, tkhd.duration);
         // tables
         let (csize, count, table) = dec_stsz(need(&stbl, "stsz")?.payload(bytes)).map_err(|e| Failure::new("c02:stsz", e))?;
         ensure!(count as u64 == n, "c02:stsz-count", "track {}: stsz sample_count {} != {} written", ti + 1, count, n);
